@@ -110,3 +110,150 @@ theorem nodeDescendants_edges (nl : NodeList) (id : String) (depth : Int) (s : S
   · simp [NodeList.HasEdge, HasEdgeL, NodeList.ids]
 
 end Protobom
+
+namespace Protobom
+
+/-! ### completeness: everything within the depth is returned -/
+
+def Expandable (nl : NodeList) (s x : String) : Prop := x = s ∨ x ∉ nl.roots
+
+theorem reachIn_zero {nl : NodeList} {s z : String} (h : ReachIn nl s 0 z) : z = s := by
+  cases h; rfl
+
+theorem reachIn_succ {nl : NodeList} {s z : String} {k : Nat} (h : ReachIn nl s (k + 1) z) :
+    ∃ x, ReachIn nl s k x ∧ Expandable nl s x ∧ z ∈ nl.targets x := by
+  cases h with
+  | succ hr he ht => exact ⟨_, hr, he, ht⟩
+
+theorem reachIn_mem_ids {nl : NodeList} {s z : String} {k : Nat} (hs : s ∈ nl.ids) (h : ReachIn nl s k z) :
+    z ∈ nl.ids := by
+  cases h with
+  | zero => exact hs
+  | succ _ _ ht =>
+    unfold NodeList.targets at ht
+    simpa using (List.mem_filter.mp ht).2
+
+/-- closure of the seen set relative to what is still pending at this level -/
+def DescClosed (nl : NodeList) (s : String) (st : List String × List String) (F : List String) : Prop :=
+  ∀ x ∈ st.1, Expandable nl s x → ∀ z ∈ nl.targets x, z ∈ st.1 ∨ z ∈ st.2 ∨ z ∈ F
+
+theorem descStep_mono (nl : NodeList) (s : String) (st : List String × List String) (n : String) :
+    (∀ z ∈ st.1, z ∈ (nl.descStep s st n).1) ∧ (∀ z ∈ st.2, z ∈ (nl.descStep s st n).2) ∧
+    n ∈ (nl.descStep s st n).1 := by
+  unfold NodeList.descStep
+  split
+  · rename_i h; exact ⟨fun _ h' => h', fun _ h' => h', h⟩
+  · split
+    · exact ⟨fun z hz => List.mem_cons_of_mem _ hz, fun _ h' => h', List.mem_cons_self⟩
+    · exact ⟨fun z hz => List.mem_cons_of_mem _ hz, fun z hz => List.mem_append.mpr (Or.inl hz),
+             List.mem_cons_self⟩
+
+theorem descStep_closed (nl : NodeList) (s : String) (st : List String × List String) (n : String)
+    (F : List String) (h : DescClosed nl s st F) : DescClosed nl s (nl.descStep s st n) F := by
+  unfold NodeList.descStep
+  split
+  · exact h
+  · split
+    · rename_i hroot
+      intro x hx hexp z hz
+      cases hx with
+      | head =>
+        exfalso
+        rcases hexp with h1 | h1
+        · exact hroot.2 h1
+        · exact h1 hroot.1
+      | tail _ hx' =>
+        rcases h x hx' hexp z hz with h1 | h1 | h1
+        · exact Or.inl (List.mem_cons_of_mem _ h1)
+        · exact Or.inr (Or.inl h1)
+        · exact Or.inr (Or.inr h1)
+    · intro x hx hexp z hz
+      cases hx with
+      | head =>
+        by_cases hzs : z ∈ n :: st.1
+        · exact Or.inl hzs
+        · refine Or.inr (Or.inl (List.mem_append.mpr (Or.inr ?_)))
+          unfold NodeList.targets at hz
+          simp only [List.mem_filter, decide_eq_true_eq] at hz ⊢
+          exact ⟨hz.1, hzs, hz.2⟩
+      | tail _ hx' =>
+        rcases h x hx' hexp z hz with h1 | h1 | h1
+        · exact Or.inl (List.mem_cons_of_mem _ h1)
+        · exact Or.inr (Or.inl (List.mem_append.mpr (Or.inl h1)))
+        · exact Or.inr (Or.inr h1)
+
+theorem descFold_complete (nl : NodeList) (s : String) (F : List String) (front : List String)
+    (st : List String × List String) (h : DescClosed nl s st F) :
+    DescClosed nl s (front.foldl (nl.descStep s) st) F ∧
+    (∀ z ∈ st.1, z ∈ (front.foldl (nl.descStep s) st).1) ∧
+    (∀ n ∈ front, n ∈ (front.foldl (nl.descStep s) st).1) := by
+  induction front generalizing st with
+  | nil => exact ⟨h, fun _ hz => hz, by simp⟩
+  | cons n ns ih =>
+    simp only [List.foldl_cons]
+    obtain ⟨m1, _, m3⟩ := descStep_mono nl s st n
+    obtain ⟨c, a, b⟩ := ih (nl.descStep s st n) (descStep_closed nl s st n F h)
+    refine ⟨c, fun z hz => a z (m1 z hz), ?_⟩
+    intro m hm
+    cases hm with
+    | head => exact a _ m3
+    | tail _ hm' => exact b m hm'
+
+theorem descLoop_complete (nl : NodeList) (s : String) (d j : Nat) (frontier seen : List String)
+    (hI : DescClosed nl s (seen, []) frontier)
+    (hA : ∀ k, k < j → ∀ z, ReachIn nl s k z → z ∈ seen)
+    (hB : ∀ z, ReachIn nl s j z → z ∈ seen ∨ z ∈ frontier) :
+    ∀ k, k < j + d → ∀ z, ReachIn nl s k z → z ∈ nl.descLoop s d frontier seen := by
+  induction d generalizing j frontier seen with
+  | zero => intro k hk z hz; exact hA k (by omega) z hz
+  | succ d ih =>
+    simp only [NodeList.descLoop]
+    obtain ⟨c, a, b⟩ := descFold_complete nl s frontier frontier (seen, []) hI
+    -- invariants at the next level
+    have hA' : ∀ k, k < j + 1 → ∀ z, ReachIn nl s k z →
+        z ∈ (frontier.foldl (nl.descStep s) (seen, [])).1 := by
+      intro k hk z hz
+      by_cases hkj : k < j
+      · exact a z (hA k hkj z hz)
+      · have : k = j := by omega
+        subst this
+        rcases hB z hz with h1 | h1
+        · exact a z h1
+        · exact b z h1
+    have hI' : DescClosed nl s ((frontier.foldl (nl.descStep s) (seen, [])).1, [])
+        (frontier.foldl (nl.descStep s) (seen, [])).2 := by
+      intro x hx hexp z hz
+      rcases c x hx hexp z hz with h1 | h1 | h1
+      · exact Or.inl h1
+      · exact Or.inr (Or.inr h1)
+      · exact Or.inl (b z h1)
+    have hB' : ∀ z, ReachIn nl s (j + 1) z →
+        z ∈ (frontier.foldl (nl.descStep s) (seen, [])).1 ∨
+        z ∈ (frontier.foldl (nl.descStep s) (seen, [])).2 := by
+      intro z hz
+      obtain ⟨x, hx, hexp, hzt⟩ := reachIn_succ hz
+      rcases hI' x (hA' j (Nat.lt_succ_self j) x hx) hexp z hzt with h1 | h1 | h1
+      · exact Or.inl h1
+      · cases h1
+      · exact Or.inr h1
+    intro k hk z hz
+    exact ih (j + 1) _ _ hI' hA' hB' k (by omega) z hz
+
+/-- the nodes returned by `NodeDescendants(id, depth)` are exactly those reached within fewer
+    than `depth` hops (the start node is level one) -/
+theorem nodeDescendants_ids (nl : NodeList) (id : String) (depth : Int) (hin : id ∈ nl.ids) (z : String) :
+    z ∈ (nl.nodeDescendants id depth).ids ↔ ∃ k, k < depth.toNat ∧ ReachIn nl id k z := by
+  constructor
+  · exact nodeDescendants_sound nl id depth z
+  · rintro ⟨k, hk, hr⟩
+    unfold NodeList.nodeDescendants
+    simp only [hin, if_true]
+    show z ∈ (nl.nodesOf _).map (·.id)
+    rw [nodesOf_ids, List.mem_filter]
+    refine ⟨?_, decide_eq_true (reachIn_mem_ids hin hr)⟩
+    have := descLoop_complete nl id depth.toNat 0 [id] []
+      (by intro x hx; cases hx) (by intro k hk; omega)
+      (by intro z hz; exact Or.inr (by rw [reachIn_zero hz]; exact List.mem_singleton.mpr rfl))
+    exact this k (by omega) z hr
+
+end Protobom
